@@ -1763,6 +1763,13 @@ func (rpi RetentionPolicyInfo) clone() RetentionPolicyInfo {
 		}
 	}
 
+	// DropSubscription shifts the entries in place: the copy needs its own
+	// backing array.
+	if rpi.Subscriptions != nil {
+		other.Subscriptions = make([]SubscriptionInfo, len(rpi.Subscriptions))
+		copy(other.Subscriptions, rpi.Subscriptions)
+	}
+
 	return other
 }
 
